@@ -346,7 +346,7 @@ def native_program(unit, info, trace_vals):
         mm = re.search(r"__CPROVER_\w+\s*\(|\n#line|\{", text[start:])
         if not mm:
             continue
-        sig = text[start : start + mm.start()].strip()
+        sig = re.sub(r"/\*.*?\*/|//[^\n]*", "", text[start : start + mm.start()], flags=re.S).strip()
         j = start + mm.start()
         clauses = []
         while True:
